@@ -7,5 +7,6 @@ var Scenarios = map[string]func() *Scenario{
 	"C03": C03Scenario,
 	"C04": C04Scenario,
 	"C06": C06Scenario,
+	"C07": C07Scenario,
 	"C11": C11Scenario,
 }
